@@ -20,6 +20,12 @@ structure Mirror where
   recentLB : Nat := 0
 deriving DecidableEq, Repr
 
+/-- what the client learns about one position from a FETCH; `none` = a UID contradicting the
+    UID already learnt for this position -/
+def MEntry.learn (e : MEntry) (f : Option Flags) (u : Option UID) : Option MEntry :=
+  if (u.isSome && e.uid.isSome && u != e.uid) then none
+  else some { uid := u.or e.uid, flags := f.or e.flags }
+
 namespace Mirror
 
 def apply (m : Mirror) : Resp → Option Mirror
@@ -35,10 +41,9 @@ def apply (m : Mirror) : Resp → Option Mirror
     match m.msgs[seq - 1]? with
     | none => none
     | some e =>
-      if (u.isSome && e.uid.isSome && u != e.uid) then none
-      else
-        let e' : MEntry := { uid := if u.isSome then u else e.uid, flags := if f.isSome then f else e.flags }
-        some { m with msgs := m.msgs.set (seq - 1) e' }
+      match e.learn f u with
+      | none => none
+      | some e' => some { m with msgs := m.msgs.set (seq - 1) e' }
 
 def applyAll (m : Mirror) : List Resp → Option Mirror
   | [] => some m
